@@ -28,6 +28,8 @@ def run(rep):
     rep.guard(i3, rep, w)
     rep.guard(i4, rep, w)
     rep.guard(i5, rep, w)
+    import c10
+    rep.guard(c10.v2, rep, w)     # a debug-only cap on probe steps: a long (legal) probe chain aborts string creation in the checked build
     if rep.tier == 'thorough':
         import witness
         witness.run_witnesses(rep, 'C11', ['W1StringConstructorIsPrivate', 'W2StringFieldsArePrivate'])
